@@ -57,6 +57,11 @@ var histSeeds = map[string]func(w *world) *world{
 		return okw(w, w.do(mkCreate("t1", worldSchemas["t1"])) && w.do(mkInsert(w.model, "t1", 30, false)) &&
 			w.do(mkUpdate(w.model, "t1", seqPred{"<=", 10})) && w.do(mkDelete(w.model, "t1", seqPred{"=", 17})))
 	},
+	// one table whose root has split and which received more rows afterwards, next to a small table with a leaf root
+	"t1x12+t2x1": func(w *world) *world {
+		return okw(w, w.do(mkCreate("t1", worldSchemas["t1"])) && w.do(mkCreate("t2", worldSchemas["t2"])) &&
+			w.do(mkInsert(w.model, "t1", 12, false)) && w.do(mkInsert(w.model, "t2", 1, false)))
+	},
 	// a database that already went through one crash/recover cycle with the log only
 	"t1x8-crashed": func(w *world) *world {
 		if !(w.do(mkCreate("t1", worldSchemas["t1"])) && w.do(mkInsert(w.model, "t1", 8, false))) {
@@ -123,13 +128,11 @@ func histBody(cfgs []histCfg, crashBound int) lib.Body {
 		} else {
 			w = sw
 		}
-		if c.Fresh() {
-			if !w.checkAll("after seed " + cfg.Seed) {
-				return
-			}
-			if cfg.Walk && !w.walk("after seed") {
-				return
-			}
+		if !w.checkAll("after seed " + cfg.Seed) {
+			return
+		}
+		if c.Fresh() && cfg.Walk && !w.walk("after seed") {
+			return
 		}
 		crashes := 0
 		for step := 0; step < cfg.Depth; step++ {
@@ -197,13 +200,15 @@ func histBody(cfgs []histCfg, crashBound int) lib.Body {
 					return
 				}
 			}
-			if c.Fresh() {
+			// the model oracle also learns row ids, so it runs after every event of
+			// every execution; the (pure) walker only on prefixes not seen before
+			if !cfg.OnlyWalk || c.Fresh() {
 				if !w.checkAll(fmt.Sprintf("after event %d", step+1)) {
 					return
 				}
-				if cfg.Walk && !w.walk(fmt.Sprintf("after event %d", step+1)) {
-					return
-				}
+			}
+			if c.Fresh() && cfg.Walk && !w.walk(fmt.Sprintf("after event %d", step+1)) {
+				return
 			}
 		}
 		if cfg.FinalCrash && c.Fresh() {
